@@ -73,7 +73,25 @@ def run(tier, replay=None):
             mid = cases[len(cases) // 2]
             ck.sample({"salt": salt, "preName": mid["preName"], "seq": mid["seq"], "order": mid["order"], "acc": mid["acc"],
                        "blk": mid["blk"], "hashes": results[len(cases) // 2].get("hashes", {}).get("radix/1")})
-    ck.cov["traces_validated_against_impl"] = total
+    # --- large ticks through the public API, both sides of the 1024 threshold (TV) ----------
+    big_runs = 0
+    if not replay:
+        trace = os.path.join(WORK, "c01_big.ndjson")
+        bsum = json.loads(harness(binp, ["c01-big", trace, str(ck.seed), tier], timeout=7200).strip().splitlines()[-1])
+        big_runs = bsum["runs"]
+        for v in bsum.get("violations", []):
+            ck.violation(f"big:{v['kind']}", v["detail"], {"salt": "", "cases": [], "big": v})
+        res = tlc("TickTrace", "TickTrace.cfg", workers=1, env={"TRACE": trace},
+                  java_opts="-Xss1g -Dtlc2.tool.queue.IStateQueue=StateDeque", timeout=7200, tags=(), out_name="c01_big")
+        ck.add_tlc(res)
+        if res.postcondition_failed or res.violation:
+            keep = os.path.join(REPLAYS, f"C01-{ck.seed}-big.ndjson")
+            shutil.copy(trace, keep)
+            m = re.search(r'"REJECTED_AT", (\d+)', open(res.stdout_path).read())
+            ck.violation("big_receipt_not_canonical_greedy", f"TickTrace rejected the receipt trace at line {m.group(1) if m else '?'}",
+                         {"salt": "", "cases": [], "trace": keep})
+        ck.cov["big_tick_runs"] = big_runs
+    ck.cov["traces_validated_against_impl"] = total + big_runs
     ck.cov["evaluations"] = total * 4
     ck.cov["distinct_nontrivial"] = nontrivial
     ck.cov["groups"] = groups_n
